@@ -120,6 +120,15 @@ var c05Tags = []string{
 	"{@x}", "{literal}", "{literal} x", "{literal", "{{literal}", "/** @param ", "/** @param? ", "/** @param", "/** @param x", "/** x", "/* x", "/*",
 	"{print 'abc", "{\"a\\", "{$", "{$x.", "{$x?.", "{$x?", "{1.}", "{0x}", "{01}", "{1e}", "{-", "{$x |", "{$x !}", "{$x = = }", "{#}",
 	"{switch $x}", "{plural $x}", "{call", "{call .t", "{if", "{foreach $x in", "{let $x:", "{msg", "{$x /}", "{{$x}", "{{$x /}",
+	// attribute forms with empty, missing, duplicated and unknown attributes
+	"{call name=\"\" /}", "{call name=\"\"}", "{call name=\"\" data=\"\" /}", "{call name=\".t\" data=\"\" /}", "{call .t data=\"\" /}", "{call name=\".t\" name=\".u\" /}",
+	"{call name=\".t\" foo=\"x\" /}", "{call name= /}", "{call name /}", "{call name=\".t\"", "{delcall a.b variant=\"\" /}", "{delcall name=\"\" /}",
+	"{param key=\"\" value=\"\" /}", "{param key=\"k\" value=\"\" /}", "{param key=\"\" /}", "{param key=\"k\" key=\"j\" value=\"1\" /}", "{param value=\"1\" /}", "{param k kind=\"\"}",
+	"{msg desc=\"\"}", "{msg}", "{msg meaning=\"\"}", "{msg desc=\"d\" desc=\"e\"}", "{msg foo=\"\"}", "{msg desc=}", "{msg desc}",
+	"{template}", "{template name=\"\"}", "{template .t private=\"\"}", "{template .t autoescape=\"\"}", "{template .t foo=\"x\"}", "{deltemplate a.b variant=\"\"}", "{deltemplate}",
+	"{namespace}", "{namespace autoescape=\"\"}", "{namespace a autoescape=\"\"}", "{namespace a requirecss=\"\"}", "{alias}", "{alias .}", "{delpackage}",
+	"{foreach}", "{foreach $x}", "{foreach $x in}", "{foreach in $y}", "{for}", "{for $i in}", "{for $i in range()}", "{if}", "{elseif}", "{switch}", "{case}", "{plural}", "{plural $n offset=\"\"}",
+	"{css}", "{css }", "{css ,}", "{let}", "{let $x /}", "{let $x}", "{let $x: /}", "{let $x kind=\"\"}", "{let $x kind=\"\" /}", "{print}", "{print |id}", "{log x}", "{literal x}",
 }
 
 // c05Wrap places a tag sequence at one of the three levels.
@@ -281,4 +290,102 @@ var c05Families = []c05Family{
 		return "{namespace n}\n{template .t}\n" + c05Rep("{@param x: list<map<string, int>>}\n", 14*n) + "{/template}\n"
 	}},
 	{"close-braces", false, func(n int) string { return "{namespace n}\n/** */\n{template .t}\n{css " + c05Rep("a-b ", 100*n) + "}{/template}" }},
+}
+
+// ---------- attribute forms ----------
+
+type c05Cmd struct {
+	Name   string
+	Pos    []string // usual positional part ("" = none)
+	Attrs  []string
+	Closer string // "" for commands that have no block form
+}
+
+var c05Cmds = []c05Cmd{
+	{"call", []string{"", ".t", "a.b.c"}, []string{"name", "data"}, "{/call}"},
+	{"delcall", []string{"", "a.b"}, []string{"name", "data", "variant", "allowemptydefault"}, "{/delcall}"},
+	{"param", []string{"", "k", "k: 1"}, []string{"key", "value", "kind"}, "{/param}"},
+	{"msg", []string{""}, []string{"desc", "meaning", "hidden"}, "{/msg}"},
+	{"template", []string{"", ".t"}, []string{"name", "private", "autoescape", "kind"}, "{/template}"},
+	{"deltemplate", []string{"", "a.b"}, []string{"variant", "autoescape"}, "{/deltemplate}"},
+	{"namespace", []string{"", "n"}, []string{"autoescape", "requirecss"}, ""},
+	{"let", []string{"", "$v", "$v: 1"}, []string{"kind"}, "{/let}"},
+	{"plural", []string{"", "$n"}, []string{"offset"}, "{/plural}"},
+	{"print", []string{"", "$x"}, []string{"id"}, ""},
+	{"css", []string{"", "a"}, []string{"base"}, ""},
+	{"foreach", []string{"", "$i in $l"}, []string{"kind"}, "{/foreach}"},
+}
+
+var c05AttrValues = []string{"", " ", ".", ".t", "a.b", "all", "$x", "$x.", "1 2", "'", "\\\"", "true", "x y", "{", "}", "\u00e9", "$x +", "\\"}
+
+// c05AttrTags: every command above with every attribute (and an unknown one) set to every value, in the
+// self-closing and the block form, with and without the positional part; duplicated attributes, pairs of
+// attributes, and malformed attribute syntax.
+func c05AttrTags() []string {
+	var out []string
+	few := []string{"", " ", ".t", "$x", "all"}
+	for _, c := range c05Cmds {
+		attrs := append(append([]string(nil), c.Attrs...), "foo")
+		for _, pos := range c.Pos {
+			head := "{" + c.Name
+			if pos != "" {
+				head += " " + pos
+			}
+			out = append(out, head+"}", head+" /}", head)
+			for _, a := range attrs {
+				for _, v := range c05AttrValues {
+					out = append(out, head+" "+a+"=\""+v+"\"}", head+" "+a+"=\""+v+"\" /}")
+				}
+				out = append(out, head+" "+a+"=}", head+" "+a+"}", head+" "+a+"=\"\"", head+" "+a+"=\"", head+" "+a+"='v'}", head+" =\"v\"}",
+					head+" "+a+"=\"v\" "+a+"=\"w\"}", head+" "+a+"=\"\" "+a+"=\"\" /}", head+" "+a+" = \"v\"}", head+" "+a+"=\"v\""+a+"=\"w\"}")
+			}
+			for i, a := range attrs {
+				for _, b := range attrs[i+1:] {
+					for _, v := range few {
+						for _, w := range few {
+							out = append(out, head+" "+a+"=\""+v+"\" "+b+"=\""+w+"\" /}")
+						}
+					}
+				}
+			}
+		}
+	}
+	return out
+}
+
+func c05Closer(tag string) string {
+	for _, c := range c05Cmds {
+		if c.Closer != "" && (strings.HasPrefix(tag, "{"+c.Name+" ") || strings.HasPrefix(tag, "{"+c.Name+"}")) {
+			return c.Closer
+		}
+	}
+	return ""
+}
+
+// c05MutateString replaces the contents of one quoted string of the segment list by a degenerate value.
+func c05MutateString(r *hx.Rand, segs []string) (string, bool) {
+	var idx []int
+	for i, s := range segs {
+		t := strings.TrimLeft(s, " \t\r\n")
+		if len(t) >= 2 && (t[0] == '"' || t[0] == '\'') && t[len(t)-1] == t[0] {
+			idx = append(idx, i)
+		}
+	}
+	if len(idx) == 0 {
+		return "", false
+	}
+	i := idx[r.Intn(len(idx))]
+	s := segs[i]
+	t := strings.TrimLeft(s, " \t\r\n")
+	lead := s[:len(s)-len(t)]
+	q := string(t[0])
+	vals := []string{"", " ", "   ", ".", "." + t[1:len(t)-1], q, "\\", "$", "all", t[1:len(t)-1] + " " + t[1:len(t)-1]}
+	v := vals[r.Intn(len(vals))]
+	out := append([]string(nil), segs...)
+	if v == q { // a lone quote
+		out[i] = lead + q
+	} else {
+		out[i] = lead + q + v + q
+	}
+	return strings.Join(out, ""), true
 }
